@@ -533,9 +533,9 @@ pub fn check(case: &Case, obs: &Obs) -> CheckResult {
 fn case_strategy() -> impl Strategy<Value = Case> {
     prop_oneof![
         4 => free_message(6, 5, true, true).prop_map(|msg| Case::Lex { msg }),
-        2 => message_with(fixed_header(any::<bool>().boxed()), 5, 4, true, true).prop_map(|msg| Case::Run { msg }),
+        2 => crate::fixtree::fixed_message(any::<bool>().boxed(), 5, 4, true, true).prop_map(|msg| Case::Run { msg }),
         3 => (free_message(4, 4, false, false), 0u8..21, any::<u32>(), any::<u8>()).prop_map(|(msg, op, pos, byte)| Case::Corrupt { msg, op, pos, byte }),
-        3 => (message_with(fixed_header(any::<bool>().boxed()), 4, 4, false, false), 0u8..21, any::<u32>(), any::<u8>()).prop_map(|(msg, op, pos, byte)| Case::Corrupt { msg, op, pos, byte }),
+        3 => (crate::fixtree::fixed_message(any::<bool>().boxed(), 4, 4, false, false), 0u8..21, any::<u32>(), any::<u8>()).prop_map(|(msg, op, pos, byte)| Case::Corrupt { msg, op, pos, byte }),
     ]
 }
 
